@@ -63,8 +63,11 @@ def det_audit():
                         for sub in ast.walk(st):
                             if isinstance(sub, ast.Call):
                                 f = sub.func
-                                pure = isinstance(f, ast.Name) and f.id in ("list", "tuple", "len", "isinstance")
-                                if not pure:
+                                pure = isinstance(f, ast.Name) and f.id in ("list", "tuple", "len", "isinstance", "hasattr")
+                                # adding to a set commutes: whatever order the elements come in, the set ends up the same
+                                commutes = isinstance(f, ast.Attribute) and f.attr in ("add", "discard") and \
+                                    isinstance(f.value, ast.Attribute) and f.value.attr in SET_ATTRS
+                                if not (pure or commutes):
                                     ok = False
                             if isinstance(sub, ast.Attribute) and isinstance(sub.ctx, ast.Store):
                                 if not (isinstance(sub.value, ast.Name) and sub.value.id == var):
@@ -161,6 +164,7 @@ def extra_designs():
         class TagP:
             tags = h.Param(dtype=FrozenSet[str], desc="tags", default=frozenset())
             nums = h.Param(dtype=FrozenSet[int], desc="nums", default=frozenset())
+            nested = h.Param(dtype=FrozenSet[FrozenSet[str]], desc="nested", default=frozenset())
 
         @h.generator
         def Tagged(p: TagP) -> h.Module:
@@ -172,6 +176,8 @@ def extra_designs():
         T.s = h.Signal()
         T.x = Tagged(tags=frozenset({"alpha", "beta", "gamma", "delta", "epsilon"}))(a=T.s)
         T.y = Tagged(tags=frozenset({"vdd", "vss"}), nums=frozenset({3, 1, 2 ** 40, -7}))(a=T.s)
+        T.z = Tagged(nested=frozenset({frozenset({"a", "b"}), frozenset({"c"}), frozenset({"d", "e", "f"}), frozenset({"g"}),
+                                       frozenset({"h", "i"}), frozenset()}))(a=T.s)
         return T
     yield ("det/history/set-valued-generator-params", set_valued_params)
 
